@@ -772,7 +772,7 @@ def run(tier):
         vlib.tlc_ok(rres, "relay (EXT)")
         ck.add_tlc(rres, "EXT MediaRelay: invariants + edges")
         rdiv = [r for r in rrows if r.get("type") == "divergence"]
-        for r in rdiv[:5]:
+        for r in rdiv[:2]:
             # beyond the listed property: DRIFT, never VIOLATION
             ck.drift.append({"rule": "EXT", "engine": "relay", "op": r["op"], "expected": r["expected"], "observed": r["observed"],
                              "ops": r["case"]["ops"]})
@@ -782,7 +782,7 @@ def run(tier):
         vlib.tlc_ok(xres, "selector (EXT)")
         ck.add_tlc(xres, "EXT SelectorTrack: FollowsSwitch, Delivers + schedules")
         xdiv = [r for r in xrows if r.get("type") == "divergence"]
-        for r in xdiv[:5]:
+        for r in xdiv[:2]:
             ck.drift.append({"rule": "EXT", "engine": "selector", "kind": r.get("kind"), "expected": r.get("expected"),
                              "observed": r.get("observed"), "steps": r["case"]["steps"]})
         ck.cov["ext_selector"] = {"cases": sum(r.get("cases", 0) for r in xrows if r.get("type") == "summary"),
